@@ -11,6 +11,7 @@ import (
 	"crypto/x509/pkix"
 	"encoding/pem"
 	"fmt"
+	"github.com/ovrclk/akash/x/cert/handler"
 	"math/big"
 	"sort"
 	"strings"
@@ -297,8 +298,26 @@ func TestVerif_C17(t *testing.T) {
 				c := c17Pool[o][rapid.IntRange(0, len(c17Pool[o])-1).Draw(t, "cert")]
 				kk := c17Key(o, c.serial)
 				var err error
-				guard("RevokeCertificate", func() { err = k.RevokeCertificate(ctx, types.CertID{Owner: c17Owners[o], Serial: *c.serial}) })
-				logop("revoke(owner%d,%s)->%v", o, c.serial, err == nil)
+				// either directly on the keeper, or as the revoke message a client sends (the serial is
+				// a decimal string there; a leading zero does not change the number)
+				form := rapid.SampledFrom([]string{"keeper", "msg", "msg-leading-zero"}).Draw(t, "revokeVia")
+				switch form {
+				case "keeper":
+					guard("RevokeCertificate", func() { err = k.RevokeCertificate(ctx, types.CertID{Owner: c17Owners[o], Serial: *c.serial}) })
+				default:
+					str := c.serial.String()
+					if form == "msg-leading-zero" {
+						str = "0" + str
+					}
+					msg := &types.MsgRevokeCertificate{ID: types.CertificateID{Owner: c17Owners[o].String(), Serial: str}}
+					if vb := msg.ValidateBasic(); vb != nil {
+						fail("c17-revoke-message-rejected", "ValidateBasic rejects a revoke message with serial %q: %v", str, vb)
+					}
+					guard("MsgRevokeCertificate", func() {
+						_, err = handler.NewMsgServerImpl(k).RevokeCertificate(sdk.WrapSDKContext(ctx), msg)
+					})
+				}
+				logop("revoke(owner%d,%s,via=%s)->%v", o, c.serial, form, err == nil)
 				e, exists := model[kk]
 				switch {
 				case !exists && err == nil:
